@@ -9,12 +9,12 @@ package gpurequesthandler
 
 // C19: "Every GPU request that admission accepts (fraction ...) denotes a finite positive quantity":
 // a present gpu-fraction annotation is accepted iff it parses to a finite f with 0 < f < 1.
-// (Before fix 1c0b67c "NaN" was accepted: NaN <= 0 and NaN >= 1 are both false.  The tag is kept.)
+// (Before fix 1c0b67c "NaN" was accepted: NaN <= 0 and NaN >= 1 are both false.)
 //@ func validateGpuFractionAnnotation
 //@   props C19
 //@   ieee
 //@   pure
-//@   ensures [finding-nan-fraction] (result == nil) == (!hasGpuFractionAnnotation || res.wfFraction(gpuFractionFromAnnotation))
+//@   ensures [fraction-wellformed-iff] (result == nil) == (!hasGpuFractionAnnotation || res.wfFraction(gpuFractionFromAnnotation))
 //@   lemma [rejects-nan] hasGpuFractionAnnotation && isnan(res.pfVal(gpuFractionFromAnnotation)) ==> result != nil
 //@   lemma [rejects-inf] hasGpuFractionAnnotation && isinf(res.pfVal(gpuFractionFromAnnotation)) ==> result != nil
 //@   lemma [rejects-unparsable] hasGpuFractionAnnotation && !res.pfOk(gpuFractionFromAnnotation) ==> result != nil
@@ -27,7 +27,7 @@ package gpurequesthandler
 //@ func validateMemoryAnnotation
 //@   props C19
 //@   pure
-//@   ensures [finding-uint-memory] (result == nil) == (!hasGpuMemoryAnnotation || res.wfPosInt(gpuMemoryFromAnnotation))
+//@   ensures [memory-wellformed-iff] (result == nil) == (!hasGpuMemoryAnnotation || res.wfPosInt(gpuMemoryFromAnnotation))
 //@   lemma [rejects-above-maxint64] hasGpuMemoryAnnotation && res.puOk(gpuMemoryFromAnnotation) && res.puVal(gpuMemoryFromAnnotation) > res.maxInt64() ==> result != nil
 //@   lemma [rejects-nonpositive] hasGpuMemoryAnnotation && res.piOk(gpuMemoryFromAnnotation) && res.piVal(gpuMemoryFromAnnotation) <= 0 ==> result != nil
 //@ end
@@ -35,7 +35,7 @@ package gpurequesthandler
 //@ func validateMultiFractionRequest
 //@   props C19
 //@   pure
-//@   ensures [finding-uint-count] (result == nil) == (!hasGpuFractionsCount || res.wfPosInt(gpuFractionsCountFromAnnotation))
+//@   ensures [count-wellformed-iff] (result == nil) == (!hasGpuFractionsCount || res.wfPosInt(gpuFractionsCountFromAnnotation))
 //@   lemma [rejects-above-maxint64] hasGpuFractionsCount && res.puOk(gpuFractionsCountFromAnnotation) && res.puVal(gpuFractionsCountFromAnnotation) > res.maxInt64() ==> result != nil
 //@   lemma [rejects-nonpositive] hasGpuFractionsCount && res.piOk(gpuFractionsCountFromAnnotation) && res.piVal(gpuFractionsCountFromAnnotation) <= 0 ==> result != nil
 //@ end
@@ -83,8 +83,9 @@ package gpurequesthandler
 //@   ensures [count-needs-portion] result == nil && res.hasCount(pod) ==> res.hasFrac(pod) || res.hasMem(pod)
 //@   ensures [mps-needs-fraction] result == nil ==> !mpsWithoutFraction(pod)
 //@   ensures [accepts-wellformed] !badCombination(pod) && valuesWellFormed(pod) ==> result == nil
-// (these three were red before fix 1c0b67c: "NaN", and values in (MaxInt64, MaxUint64]; names kept for known_findings.json)
-//@   lemma [finding-nan-fraction] result == nil && res.hasFrac(pod) ==> res.wfFraction(res.fracStr(pod))
-//@   lemma [finding-uint-memory] result == nil && res.hasMem(pod) ==> res.wfPosInt(res.memStr(pod))
-//@   lemma [finding-uint-count] result == nil && res.hasCount(pod) ==> res.wfPosInt(res.countStr(pod))
+// (these three were red before fix 1c0b67c, then named lemma[finding-nan-fraction] / [finding-uint-memory] /
+//  [finding-uint-count]: "NaN" was accepted, and so were values in (MaxInt64, MaxUint64])
+//@   ensures [accepted-fraction-finite-in-0-1] result == nil && res.hasFrac(pod) ==> res.wfFraction(res.fracStr(pod))
+//@   ensures [accepted-memory-in-1-maxint64] result == nil && res.hasMem(pod) ==> res.wfPosInt(res.memStr(pod))
+//@   ensures [accepted-count-in-1-maxint64] result == nil && res.hasCount(pod) ==> res.wfPosInt(res.countStr(pod))
 //@ end
